@@ -82,7 +82,7 @@ Proof.
   intros H [->| ->]; cbn in H; destruct (a_hs a); cbn in H; try discriminate;
     destruct (a_ph a); cbn in H; try discriminate.
   - inversion H. cbn. auto.
-  - destruct (okp_eqb (a_kp a) (Some false)); [|discriminate]. inversion H. cbn. auto.
+  - inversion H. cbn. auto.
 Qed.
 
 Lemma caprim_reset_ph a a' : caprim a SStoreReset = Some a' -> a_ph a' = PhIdle \/ a_ph a' = PhStale.
